@@ -690,6 +690,33 @@ impl<'a> Lock<'a> {
         if e0 != em {
             self.viol("mirror", format!("evaluate = {e0}, on the colour mirror '{}' = {em}", m.fen()));
         }
+        // the same three evaluations once more on freshly loaded boards in a brand-new thread:
+        // an evaluator that remembers things (per thread, per process, inside the board) must
+        // still give the position's value, whatever was evaluated before and wherever
+        if self.nodes % 199 == 0 {
+            let (pf, mf, sf) = (p.fen(), m.fen(), s.fen());
+            let fresh = std::thread::spawn(move || {
+                let ev = SimpleEvaluator;
+                let a = eng::load(&pf).ok().map(|mut b| ev.evaluate(&mut b));
+                let b2 = eng::load(&mf).ok().map(|mut b| ev.evaluate(&mut b));
+                let c = eng::load(&sf).ok().map(|mut b| ev.evaluate(&mut b));
+                (a, b2, c)
+            })
+            .join()
+            .unwrap_or((None, None, None));
+            self.local.fen_reloads += 1;
+            if let (Some(a), Some(b2), Some(c)) = fresh {
+                if a != e0 {
+                    self.viol("context-dependent", format!("evaluate on the board reached by play = {e0}, the same position freshly loaded and evaluated in a new thread = {a}"));
+                }
+                if a != b2 {
+                    self.viol("mirror", format!("(fresh thread) evaluate = {a}, on the colour mirror '{}' = {b2}", m.fen()));
+                }
+                if i32::from(a) != -i32::from(c) {
+                    self.viol("side-swap", format!("(fresh thread) evaluate = {a}, with the other side to move = {c}"));
+                }
+            }
+        }
         if i32::from(e0) != -i32::from(es) {
             self.viol("side-swap", format!("evaluate = {e0}, with the other side to move = {es}"));
         }
@@ -1154,7 +1181,9 @@ impl<'a> Lock<'a> {
                 self.at_node();
             }
             let moves = self.p().legal_moves();
-            if moves.is_empty() || self.p().half >= 160 {
+            // one game in five keeps going through very long quiet stretches (clock up to 300)
+            let half_cap = if stream % 5 == 0 { 300 } else { 160 };
+            if moves.is_empty() || self.p().half >= half_cap {
                 break;
             }
             let units = self.p().sq.iter().filter(|&&x| x != 0).count();
